@@ -49,6 +49,7 @@ const (
 	kSearchRev    = "K19h-search-without-revision"
 	kRenameID     = "K19i-idfield-rename-breaks-old-docs"
 	kDupAfterRead = "K19j-unique-duplicate-after-read"
+	kMasked       = "K19k-unique-masked-by-deleted-entry"
 )
 
 type fieldDef struct {
